@@ -19,7 +19,7 @@ def run(ctx):
                         "only receives whole-object copies of a default-constructed local header (shared with C20-R2), so reserved bytes are zero "
                         "whatever the destination held")
     res.rule("C12-R3", "reserved bytes are zero-initialised in default-constructed header objects")
-    res.rule("C12-R3w", "no in-range setter writes a reserved (or any foreign) bit (C11-R1 frame result)")
+    res.rule("C12-R3w", "no in-range setter writes a reserved bit or a bit of another field (C11-R1 frame result, taken over in full)")
     res.rule("C12-R4", "swapEndian overloads are byte reversal for all values (integer overloads by G4, float overload by "
                         "its byte-assignment body)")
     res.rule("C12-R5", "variable-length parts: the builders write every byte they advance over, so the big-endian length fields and pad bytes of the "
@@ -47,8 +47,10 @@ def run(ctx):
                 if o.cls not in reserved_bits:
                     continue
                 hit = sorted(set(o.bits) & reserved_bits[o.cls])
-                res.check(not hit, "C12-R3w", o.key, o.loc, "writes no reserved bit" if not hit else
-                          o.detail + " — %d of them reserved by the layout" % len(hit))
+                # the layout prescribes every byte of the header: a setter that changes bits outside its own field (reserved ones, or a
+                # neighbouring field's — C11-R1's frame result) leaves a header whose bytes are not what the fields say
+                res.check(o.ok and not hit, "C12-R3w", o.key, o.loc, "writes only its own field's wire bits" if (o.ok and not hit) else
+                          o.detail + (" — %d of them reserved by the layout" % len(hit) if hit else ""))
                 continue
             res.check(o.ok, TAGS[o.tag], o.key, o.loc, o.detail)
     # variable-length parts: length fields and data written by the builders (C13-R3: every advanced byte is written)
